@@ -85,6 +85,14 @@ pub fn alphabet(slots: usize) -> Vec<Pkt> {
     v.push(named("end-id0-reuse-X", er));
     v.push(named("first-id0-oversize", Desc::first(L3A, 0x0800, 0, 40, &[0x95; 9]).print()));
     v.push(named("first-id0-bad-total", Desc::first(L3A, 0x0800, 0, 1, &[0x96, 0x97]).print()));
+    // accepted first fragments whose announced total length is smaller than protocol type + label (the train can
+    // never verify; the end fragment must be answered with an error, not with an arithmetic panic)
+    v.push(named("first-id0-total-below-overhead", Desc::first(L3A, 0x0800, 0, 4, &[0x9E]).print()));
+    v.push(named("first-id0-no-payload-total1", Desc::first(L6A, 0x0800, 0, 1, &[]).print()));
+    // first fragment with a long extension area (10 bytes) that leaves only 4 of its 6 PDU bytes for later
+    let mut d = Desc::first(Lbl::Bcast, 0x0501, 1, 8, &[0xB1, 0xB2]);
+    d.ext_bytes = vec![0xF1, 0xF2, 0xF3, 0xF4, 0xF5, 0xF6, 0xF7, 0xF8, 0x08, 0x00];
+    v.push(named("first-id1-long-ext-nearly-whole-pdu", d.print()));
     let mut d = Desc::first(L3A, 0x0800, 0, 9, &[]);
     d.gse_len = Some(4);
     v.push(named("first-bad-gse-len", d.print()));
